@@ -182,12 +182,12 @@ Definition run (inp : list N) : list N :=
       | Some ((E, (ig, (is_, bs))), _) => 1 :: enc_payloads (publish E ig is_ bs)
       | None => [0]
       end
-  (* 4: stream item queue: ops -> outputs *)
-  | 4 :: r =>
+  (* 4: stream item queue: capacity, ops -> outputs, then (is_stopped(), outstanding items) after every operation *)
+  | 4 :: cap :: r =>
       match dlist dsqop r with
       | Some (ops, _) =>
-          let '(st, outs) := sq_run sq_init ops in
-          1 :: of_nat (length outs) :: flat_map enc_sqout outs
+          let '(b, outs, flags) := b_run (bsq_init (nat_of cap)) ops in
+          1 :: of_nat (length outs) :: flat_map enc_sqout outs ++ of_nat (length flags) :: flat_map (fun f : bool * nat => [of_bool (fst f); of_nat (snd f)]) flags
       | None => [0]
       end
   (* 5: exhaustive exploration at model level: depth, env, work ->
